@@ -428,7 +428,7 @@ def range_for_by_ref(elem_type, min_count=0):
     """`for ([const] auto& x : V) { ... }`  ->  index loop over the shim vector
     V with `x` an lvalue macro for the element, undefined again after the
     loop's closing brace ([stmt.ranged])."""
-    rx = re.compile(r'for\s*\(\s*(const\s+)?auto&\s+(\w+)\s*:\s*([\w.>-]+)\s*\)\s*\{')
+    rx = re.compile(r'for\s*\(\s*(const\s+)?auto&\s+(\w+)\s*:\s*([\w.>:-]+)\s*\)\s*\{')
 
     def rule(ex, body):
         n = 0
@@ -561,5 +561,31 @@ def eval_if_constexpr(cond_eval, min_count=0):
         if n < min_count:
             raise ExtractionBroken("if-constexpr rule fired %d times (expected >= %d) in %s" % (n, min_count, ex.where()))
         ex.rules_fired.append(('if constexpr partial evaluation', n))
+        return body
+    return rule
+
+
+def range_for_ptr(elem_type='type_id', min_count=0):
+    """`for (auto& x : range{first, last}) {...}` (detail::range over a pointer pair) -> pointer loop with x an
+    lvalue macro for *x_p, undefined after the loop's closing brace."""
+    rx = re.compile(r'for\s*\(\s*(?:const\s+)?auto&?\s+(\w+)\s*:\s*(?:detail::)?range\s*\{\s*([^,{}]+?)\s*,\s*([^{}]+?)\s*\}\s*\)\s*\{')
+
+    def rule(ex, body):
+        n = 0
+        pos = 0
+        while True:
+            m = rx.search(body, pos)
+            if not m:
+                break
+            ob = m.end() - 1
+            cb = match_close(body, ob)
+            x, a, b = m.group(1), m.group(2), m.group(3)
+            head = ('for (%s *%s_p = %s; %s_p != %s; ++%s_p) {\n#define %s (*%s_p)\n' % (elem_type, x, a, x, b, x, x, x))
+            body = body[:m.start()] + head + body[ob + 1:cb] + '}\n#undef %s\n' % x + body[cb + 1:]
+            pos = m.start() + len(head)
+            n += 1
+        if n < min_count:
+            raise ExtractionBroken("range-for over range{first,last} fired %d times (expected >= %d) in %s" % (n, min_count, ex.where()))
+        ex.rules_fired.append(('range-for over detail::range{first, last}', n))
         return body
     return rule
